@@ -943,8 +943,59 @@ def run_ctx(req):
     return {"obs": obs[:6], "stats": stats}
 
 
+def run_special(req):
+    kind = req["ir"]["special"]
+    if kind != "anext_sequence_awaitable":
+        raise AssertionError(kind)
+    if sys.version_info < (3, 10):
+        return {"obs": [], "stats": {"points": 0, "not_available": 1}}
+    import builtins
+
+    @types.coroutine
+    def trap():
+        yield "trapped"
+
+    async def decoy():
+        await trap()
+
+    dc = decoy()
+    dc.send(None)
+
+    class SeqAwaitable(tuple):
+        def __await__(self):
+            return (yield from trap())
+
+    class It:
+        def __aiter__(self):
+            return self
+
+        def __anext__(self):
+            return SeqAwaitable((dc, 42))
+
+    async def main():
+        await builtins.anext(It(), "dflt")
+
+    m = main()
+    m.send(None)
+    obs = []
+    try:
+        st = extract(m)
+    except BaseException as ex:
+        return {"obs": [{"kind": "raised", "exc": repr(ex)}], "stats": {"points": 1}}
+    names = [f.funcname for f in st.frames]
+    if any(f.pyframe is dc.cr_frame for f in st.frames) or "decoy" in names or st.leaf == 42:
+        obs.append({"kind": "frames_of_a_coroutine_nobody_in_the_chain_awaits", "frames": names, "leaf": repr(st.leaf)[:80]})
+    if not st.frames or st.frames[0].pyframe is not m.cr_frame:
+        obs.append({"kind": "frames", "got": names})
+    dc.close()
+    m.close()
+    return {"obs": obs, "stats": {"points": 1}}
+
+
 def handle(req):
     op = req["op"]
+    if op == "chains.c03" and "special" in req.get("ir", {}):
+        return run_special(req)
     if op == "chains.ctx":
         return run_ctx(req)
     if op == "chains.c03":
